@@ -309,7 +309,7 @@ def link_document():
         "PutIt": {
             "operationRef": "#/paths/~1items~1{id}/put",
             "parameters": {"path.id": "$response.body#/id"},
-            "requestBody": {"name": "$response.body#/name", "qty": 7, "tag": "pre-{$response.body#/id}-post", "nested": {"k": ["$response.body#/tags/0", "lit"]}},
+            "requestBody": {"name": "$response.body#/name", "qty": 7, "tag": "pre-{$response.body#/id}-post", "nested": {"k": ["$response.body#/tags/0", "lit"]}, "members": [{"id": "$response.body#/id", "via": "{$method}"}], "matrix": [["$response.body#/id", 1], []]},
             "x-schemathesis": {"merge_body": False},
         },
         "Loc": {"operationId": "getItem", "parameters": {"id": "$response.header.Location#regex:/items/(\\d+)", "query.v": "const-v"}},
